@@ -39,7 +39,8 @@ CHECKS = {
             "runtime monitoring: recorded compilation results of re-spelled sources compared offline",
             "Each generated program is re-spelled (hostile layout, comments at every token boundary, alternative literal and "
             "keyword forms) and compiled by the real compiler; ops with raw offsets, routine tables and position marks must "
-            "be identical to those of the canonical spelling.",
+            "be identical to those of the canonical spelling. Macro layouts whose imported files are re-spelled are compiled in this process and in a "
+            "child interpreter whose default encoding is ASCII (C locale).",
             "Trusts my token printer: separators are only dropped where tokens cannot glue; string re-spellings only when my decoder agrees.",
             "DESIGN.md 3/C16"),
     "C17": ("exploration",
@@ -81,7 +82,8 @@ CHECKS = {
             "runtime monitoring: K-DECOMPILE wrapper on the real convert() (exceptions, result type, marker), fallback exactness by recompiling, sys.monitoring step counter as bounded-progress oracle",
             "Well-formed routine sets of four kinds (compiler-shaped, re-laid-out, random flow graphs, special opcodes) are "
             "converted once each under the monitor; an exception, a runaway call (step bound), a malformed marker or a "
-            "fallback text that does not reproduce the input op for op is a violation.",
+            "fallback text that does not reproduce the input op for op is a violation. A fifth class forces the fallback (an op no pass can place) on "
+            "random flow graphs with jumps between routines in both directions.",
             "'Always answers' is restated as a step bound measured on the unchanged tree (x200); worker crashes inside an announced call count as 'did not answer'.",
             "DESIGN.md 3/C06"),
     "C13": ("exploration",
@@ -119,11 +121,11 @@ CHECKS = {
             "command; its stdout must validate against the documented structure, every jump parameter must be the 1-based position "
             "of its target, and the decompile command must accept it and print a program behaving like the source. Documents written "
             "from the docs (all routine and argument types, numeric and string coordinates) must be accepted; invalid sources and "
-            "malformed documents must exit non-zero without output.",
+            "malformed documents must exit non-zero without output. The compile command is run again under other output encodings and must print the same bytes.",
             "Trusts my transcription of docs/cli_api_usage.rst into a JSON Schema; behaviour comparison only for the structured class.",
             "DESIGN.md 3/C15"),
     "C11": ("exploration",
-            "runtime monitoring: recorded-history checker (every call of random call histories vs fresh-process goldens) + K-CACHE memo provenance monitor + class-level state invariant",
+            "runtime monitoring: recorded-history checker (every call of random call histories vs fresh-process goldens) + K-CACHE memo provenance monitor + class-level state invariant + K-CLOCK clock skew injection",
             "Random histories of compile / decompile calls in one process (reused compiler objects, input objects handed in again, failing "
             "and repeated inputs, gc and graph allocation bursts to recycle id()s) are recorded; every call's result record must equal the "
             "record a fresh interpreter computes for the same input. K-CACHE records for each memo dict the graph it was made for and "
@@ -131,11 +133,13 @@ CHECKS = {
             "Histories are sampled; id() recycling is provoked and counted, not forced. Failing calls are compared by exception type (the wording of ANTLR syntax errors depends on its prediction caches; variants are recorded in the evidence).",
             "DESIGN.md 3/C11"),
     "C12": ("exploration",
-            "runtime monitoring: stress with schedule perturbation (K-SCHED: switch interval 1us + yield injection at sys.monitoring LINE / PY_START events in the code touching shared caches), client-boundary history checked offline against sequential goldens, K-CACHE",
+            "runtime monitoring: stress with schedule perturbation (K-SCHED: switch interval 1us + yield injection at sys.monitoring LINE / PY_START events in the code touching shared caches), client-boundary history checked offline against sequential goldens, K-CACHE, K-COLD (cold-start pause points inside the functions a state probe saw writing process-wide state), K-CLOCK (clock skew injection)",
             "2-16 barrier-started threads run compile / decompile jobs (any assignment, the same input on several threads, failing inputs) "
             "with the static ANTLR caches reset to their cold state before most schedules; each recorded call must return the record a fresh "
             "interpreter computes for its input and must not raise unless that one does. Evidence counts overlapping call pairs, thread "
-            "switches observed at the instrumented sites, distinct interleaving signatures and injected yields per site.",
+            "switches observed at the instrumented sites, distinct interleaving signatures and injected yields per site. K-COLD: in fresh interpreters "
+            "thread A is held at its n-th line inside each function during which a probe run saw module- or class-level state change, while thread B "
+            "runs a whole call; K-CLOCK answers every clock reading of repository code one hour ahead of the previous one.",
             "Only GIL interleavings exist here; schedules are sampled. No compiler sanitizer applies (pure Python, no native code of the repo).",
             "DESIGN.md 3/C12"),
 }
